@@ -22,6 +22,8 @@ func init() {
 	register(&Rule{ID: "R-REMOTELOOKBACK", Min: 1, Run: ruleRemoteLookback,
 		Doc: "the query.Options that remote.NewExecution hands to the selector reading remote results has LookbackDelta overridden to zero (the remote engine already applied it)"})
 
+	mutant(Mutant{Rule: "R-SLOTPTR", Name: "wrapper-transparent-for-parent", File: "logicalplan/plan.go",
+		Old: "\tcase *parser.UnaryExpr:\n\t\treturn traverseBottomUp(current, &node.Expr, transform)\n", New: "\tcase *parser.UnaryExpr:\n\t\treturn traverseBottomUp(parent, &node.Expr, transform)\n", Expect: "UnaryExpr.Expr"})
 	mutant(Mutant{Rule: "R-SLOTPTR", Name: "traverse-loop-copy", File: "logicalplan/plan.go",
 		Old: "for i := range node.Args {\n\t\t\ttraverse(&node.Args[i], transform)", New: "for _, n := range node.Args {\n\t\t\ttraverse(&n, transform)", Expect: "logicalplan.traverse"})
 	mutant(Mutant{Rule: "R-SLOTPTR", Name: "bottomup-loop-copy", File: "logicalplan/plan.go",
@@ -88,15 +90,92 @@ func ruleSlotPtr(p *core.Program) []core.Obligation {
 						status = core.Violated
 						detail = "address of local copy '" + x.Comment + "' that is never read after the call: a node replacement made through this pointer is lost"
 					}
+				case *ssa.Call:
+					// a helper that picks the slot (func wrappedExpr(expr *parser.Expr) *parser.Expr { ... return
+					// &node.Expr }): every return is the address of a field or element, the helper's own
+					// pointer parameter, or nil
+					h := x.Call.StaticCallee()
+					okAll, n := h != nil && h.Blocks != nil && p.InRepo(h), 0
+					if okAll {
+						core.EachInstr(h, func(rb *ssa.BasicBlock, _ int, y ssa.Instruction) {
+							ret, isRet := y.(*ssa.Return)
+							if !isRet || rb == h.Recover {
+								return
+							}
+							for _, r := range ret.Results {
+								if !isExprPtr(r.Type()) {
+									continue
+								}
+								for v := range core.PhiClosure(r) {
+									n++
+									switch v.(type) {
+									case *ssa.FieldAddr, *ssa.IndexAddr, *ssa.Parameter, *ssa.Const, *ssa.Phi:
+									default:
+										okAll = false
+									}
+								}
+							}
+						})
+					}
+					if okAll && n > 0 {
+						detail = "slot picked by helper " + h.Name() + " (addresses of fields/elements, its own parameter, or nil)"
+					} else {
+						status = core.Undecided
+						detail = "pointer returned by a call whose returns are not all addresses of real slots"
+					}
 				default:
 					status = core.Undecided
 					detail = fmt.Sprintf("pointer of unrecognised origin %T", a)
 				}
 				obs = append(obs, core.Ob(rule, key, p.Pos(ins.Pos()), core.FuncName(fn), status, detail))
 			}
+			// a traversal that hands out (parent, node) pairs: when it recurses into a child slot of the node it
+			// was given, the parent it passes is that node - not its own parent (a wrapper such as -x or (x) is
+			// the parent of its operand: what is decided about the operand depends on it)
+			if cc.StaticCallee() == fn {
+				var ptrParams []int
+				for i, prm := range fn.Params {
+					if isExprPtr(prm.Type()) {
+						ptrParams = append(ptrParams, i)
+					}
+				}
+				if len(ptrParams) == 2 && len(cc.Args) == len(fn.Params) {
+					pi, ci := ptrParams[0], ptrParams[1]
+					isSlot := false
+					switch cc.Args[ci].(type) {
+					case *ssa.FieldAddr, *ssa.IndexAddr:
+						isSlot = true
+					}
+					if isSlot {
+						key := fmt.Sprintf("%s recursion at %s passes the node as parent of its child", core.FuncName(fn), slotName(cc.Args[ci]))
+						if cc.Args[pi] == ssa.Value(fn.Params[ci]) {
+							obs = append(obs, core.Ob(rule, key, p.Pos(ins.Pos()), core.FuncName(fn), core.Held, "parent argument is the node itself"))
+						} else {
+							obs = append(obs, core.Ob(rule, key, p.Pos(ins.Pos()), core.FuncName(fn), core.Violated, "the child is visited with a parent other than the node it is a child of (the node's own parent): decisions that depend on the enclosing node (is the parent distributive? is this the root?) are taken for the wrong node"))
+						}
+					}
+				}
+			}
 		})
 	}
 	return obs
+}
+
+func slotName(v ssa.Value) string {
+	switch x := v.(type) {
+	case *ssa.FieldAddr:
+		if n, f, _, ok := core.FieldRef(x); ok && n != nil {
+			return n.Obj().Name() + "." + f
+		}
+	case *ssa.IndexAddr:
+		if fa, ok := core.Deref(x.X).(*ssa.FieldAddr); ok {
+			if n, f, _, ok := core.FieldRef(fa); ok && n != nil {
+				return n.Obj().Name() + "." + f + "[i]"
+			}
+		}
+		return "element"
+	}
+	return "slot"
 }
 
 // readAfter reports whether the local alloc is loaded at some point that can execute after ins.
